@@ -276,4 +276,110 @@ theorem c07_era_leaf (era : Era) (i fs : Nat) (x : ByteArray) (hx : x.size ≤ 6
     · refine ⟨padLeaf x, by simp [storageProofLeaf, h0, hl], ?_⟩
       exact padLeaf_full _ (padLeaf_size x hx)
 
+
+/-! ## the challenged leaf: `State.StorageProofLeafIndex` -/
+
+/-- the 32-byte seed read as a 256-bit big-endian number -/
+def seedNat (seed : ByteArray) : Nat :=
+  ((readBe64 seed 0 * 18446744073709551616 + readBe64 seed 8) * 18446744073709551616 + readBe64 seed 16)
+    * 18446744073709551616 + readBe64 seed 24
+
+theorem readBe64_lt (b : ByteArray) (off : Nat) : readBe64 b off < 18446744073709551616 := by
+  unfold readBe64
+  exact UInt64.toNat_lt _
+
+theorem div64_step (r w n : Nat) (hr : r < n) :
+    Go.bits_Div64 r w n = .ok ((r * 18446744073709551616 + w) / n, (r * 18446744073709551616 + w) % n) := by
+  unfold Go.bits_Div64
+  have h1 : n ≠ 0 := by omega
+  have h2 : ¬ (n ≤ r) := by omega
+  simp [h1, h2]
+
+theorem mod_step (a w n : Nat) : ((a % n) * 18446744073709551616 + w) % n = (a * 18446744073709551616 + w) % n := by
+  rw [Nat.add_mod, Nat.mul_mod, Nat.mod_mod, ← Nat.mul_mod, ← Nat.add_mod]
+
+/-- the reduction loop never panics (the divisor is positive and the running remainder stays below
+it) and computes the seed modulo the number of leaves -/
+theorem leafIndexLoop_eq (seed : ByteArray) (n : Nat) (hn : 0 < n) :
+    leafIndexLoop seed n 4 0 = .ok (seedNat seed % n) := by
+  have hlt : ∀ x, x % n < n := fun x => Nat.mod_lt x hn
+  unfold seedNat
+  simp only [leafIndexLoop, Nat.sub_self, Nat.mul_zero]
+  rw [div64_step 0 _ n hn]
+  simp only [bind, Except.bind, Nat.zero_mul, Nat.zero_add]
+  rw [div64_step _ _ n (hlt _)]
+  simp only [bind, Except.bind]
+  rw [div64_step _ _ n (hlt _)]
+  simp only [bind, Except.bind]
+  rw [div64_step _ _ n (hlt _)]
+  simp only [bind, Except.bind]
+  simp only [mod_step]
+
+/-- `StorageProofLeafIndex` is total: for EVERY file size (0, 2^64-1, … — no bound is needed) and every
+seed it returns without panic; for an empty file it returns 0 -/
+theorem c07_leaf_index_total (filesize : Nat) (seed : ByteArray) :
+    ∃ r, storageProofLeafIndexOfSeed filesize seed = .ok r ∧ (filesize = 0 → r = 0) := by
+  unfold storageProofLeafIndexOfSeed
+  by_cases h : numLeaves filesize = 0
+  · exact ⟨0, by simp [h], fun _ => rfl⟩
+  · refine ⟨seedNat seed % numLeaves filesize, ?_, ?_⟩
+    · simp only [h, if_false]; exact leafIndexLoop_eq seed _ (by omega)
+    · intro h0; subst h0; exact absurd (by decide : numLeaves 0 = 0) h
+
+/-- what it computes: the 256-bit big-endian value of `hashAll(windowID, fcid)` modulo the number of
+leaves `⌈filesize/64⌉` (0 for an empty file) — the meaning of "the leaf chosen by the chain-derived
+challenge" -/
+theorem c07_leaf_index_uniform_spec (filesize : Nat) (seed : ByteArray) :
+    storageProofLeafIndexOfSeed filesize seed
+      = .ok (if numLeaves filesize = 0 then 0 else seedNat seed % numLeaves filesize) := by
+  unfold storageProofLeafIndexOfSeed
+  by_cases h : numLeaves filesize = 0
+  · simp [h]
+  · simp only [h, if_false]; exact leafIndexLoop_eq seed _ (by omega)
+
+theorem numLeaves_pos {filesize : Nat} (h : 0 < filesize) : 0 < numLeaves filesize := by
+  unfold numLeaves
+  by_cases h64 : filesize % 64 ≠ 0
+  · simp [h64]
+  · simp only [h64, if_false]; omega
+
+/-- the challenged leaf exists: for a non-empty file the index is below the number of leaves -/
+theorem c07_leaf_index_in_range (filesize : Nat) (seed : ByteArray) (r : Nat) (hfs : 0 < filesize)
+    (h : storageProofLeafIndexOfSeed filesize seed = .ok r) : r < numLeaves filesize := by
+  rw [c07_leaf_index_uniform_spec] at h
+  have hp := numLeaves_pos hfs
+  have hne : numLeaves filesize ≠ 0 := by omega
+  simp only [hne, if_false, Except.ok.injEq] at h
+  rw [← h]; exact Nat.mod_lt _ hp
+
+example : storageProofLeafIndexOfSeed 18446744073709551615 (Bytes.zeros 32) = .ok 0 := by
+  rw [c07_leaf_index_uniform_spec]; congr 1
+
+/-- v2, end to end: for a non-empty file whose committed data has `numLeaves filesize` leaves, if the
+verdict accepts a proof for the index the chain challenge derives, the proven leaf IS the leaf of the
+committed data at that index -/
+theorem c07_challenge_sound_v2 [DecidableEq H] (hinj : HashInj H) (hash : ByteArray → ByteArray)
+    (cs : List ByteArray) (fs : Nat) (windowID fcid leaf64 : ByteArray) (proof : List H) (idx : Nat)
+    (hfs : 0 < fs) (hlt : fs < 18446744073709551616) (hcs : cs.length = numLeaves fs)
+    (hidx : storageProofLeafIndex hash fs windowID fcid = .ok idx)
+    (hacc : verifyV2 idx fs leaf64 proof (metaRoot (cs.map (leaf : ByteArray → H))) = true) :
+    idx < cs.length ∧ cs[idx]? = some (padLeaf leaf64) := by
+  have hr := c07_leaf_index_in_range fs _ idx hfs hidx
+  have hl := (lastLeafIndex_eq fs hfs hlt).2
+  rw [← hcs] at hr hl
+  exact ⟨hr, c07_proof_sound_v2 hinj cs idx fs leaf64 proof hr hfs hl hacc⟩
+
+/-- v1, end to end (any era): acceptance for the chain-derived index means the bytes the era rule
+selects from the submitted leaf zero-extend to the leaf of the committed data at that index -/
+theorem c07_challenge_sound_v1 [DecidableEq H] (hinj : HashInj H) (hash : ByteArray → ByteArray) (era : Era)
+    (cs : List ByteArray) (fs : Nat) (windowID fcid leaf64 : ByteArray) (proof : List H) (idx : Nat)
+    (hfs : 0 < fs) (hlt : fs < 18446744073709551616) (hcs : cs.length = numLeaves fs)
+    (hidx : storageProofLeafIndex hash fs windowID fcid = .ok idx)
+    (hacc : verifyV1 era idx fs leaf64 proof (metaRoot (cs.map (leaf : ByteArray → H))) = true) :
+    idx < cs.length ∧ ∃ lf, storageProofLeaf era idx fs leaf64 = some lf ∧ cs[idx]? = some (padLeaf lf) := by
+  have hr := c07_leaf_index_in_range fs _ idx hfs hidx
+  have hl := (lastLeafIndex_eq fs hfs hlt).2
+  rw [← hcs] at hr hl
+  exact ⟨hr, c07_v1_sound hinj era cs idx fs leaf64 proof hr hfs hl hacc⟩
+
 end C07
